@@ -43,7 +43,7 @@ def corpus():
         # D15 (known findings): outside the envelope
         "distsum regular %d 1 1" % (2 * 10**6 * 10**9),
         "distsum regular %d 3 960315879,960315879,960315879" % (700 * MS),
-    ]
+    ] + __import__("vlib.props._plan", fromlist=["x"]).cli_corpus_for("C12")
 
 
 def generate(rng, tier):
@@ -100,9 +100,18 @@ def ok(spec):
     return spec == "ok" or spec == "ok:gap"
 
 
+def compare(rec):
+    if rec["case"].startswith("cli "):
+        from . import _plan
+        return _plan.cli_compare(rec)
+    if rec["model"] == "-":
+        return None
+    return None if rec["impl"] == rec["model"] else "model=%s impl=%s" % (rec["model"], rec["impl"])
+
+
 def nontrivial_key(rec):
     a = rec["case"].split()
-    if a[0] in ("distsum", "pipeline"):
+    if a[0] in ("distsum", "pipeline", "cli"):
         return rec["case"]
     if a[1] in ("regular", "random") and int(a[2]) > 100 * MS and any(int(x) > 0 for x in a[4].split(",") if x != "-"):
         return rec["case"]
@@ -111,7 +120,7 @@ def nontrivial_key(rec):
 
 def signature(rec):
     a = rec["case"].split()
-    if a[0] == "pipeline":
+    if a[0] in ("pipeline", "cli"):
         return rec["case"]
     if a[0] == "distsum":
         N = int(a[2]) // (100 * MS)
@@ -130,8 +139,8 @@ def distribution(recs):
         a = r["case"].split()
         if a[0] == "distsum":
             d["summary_form"] += 1
-        elif a[0] == "pipeline":
-            d["pipelines"] = d.get("pipelines", 0) + 1
+        elif a[0] in ("pipeline", "cli"):
+            d[a[0]] = d.get(a[0], 0) + 1
         elif a[1] in d:
             d[a[1]] += 1
             if int(a[2]) <= 100 * MS:
